@@ -11,6 +11,8 @@ import GeckoModel.Proofs.WatercareRace
 import GeckoModel.Model.Commands
 import GeckoModel.Properties.C02
 import GeckoModel.Properties.C16
+import GeckoModel.Proofs.Coop
+import GeckoModel.Generated.Skeletons
 
 namespace GeckoModel.C13
 open GeckoModel GeckoModel.Generated
@@ -174,5 +176,14 @@ theorem optimistic_update_loses_the_mode :
 waits for the lock while the poll is in flight) -/
 example : let fin := WatercareRace.run asyncSetModeSteps 2 (WatercareRace.initSys 1 1) [1, 0, 1, 0, 0, 0]
     fin.cmdPc = 2 ∧ fin.spaWc = 2 ∧ fin.cliWc = 2 := by decide
+
+/-- the statement order `watercare_command_survives_polls` rests on, a second time and independently: over the regenerated
+suspension skeleton of `GeckoWaterCare.async_set_mode` (harness/gen_coop.py; `asyncSetModeSteps` comes from harness/gen_c13.py),
+in every trace the local mode change happens only after the awaited SETWC exchange -/
+theorem async_set_mode_changes_locally_after_the_exchange :
+    Coop.precedes (Coop.isAwaitOf "self._spa.async_set_watercare") (Coop.isCallOf "self.change_watercare_mode")
+      Generated.Skeletons.sk_automation_watercare__GeckoWaterCare_async_set_mode = true ∧
+    "self.change_watercare_mode" ∈ Coop.actions .call Generated.Skeletons.sk_automation_watercare__GeckoWaterCare_async_set_mode := by
+  decide +kernel
 
 end GeckoModel.C13
